@@ -8,7 +8,7 @@ CHUNK = 50
 RULE = ("One evaluation = one seeded history that leaves mixed backend states (pending, running, failed, cancelled, finished, purged) followed by `gwf run [patterns]`; the submissions received by the simulated scheduler (job name, dependency ids parsed by the scheduler's own grammar) must equal M_plan: cone of the selection, exactly {failed, cancelled, shouldrun}, each once, after its same-run prerequisites, prerequisite ids = ids of exactly the incomplete direct dependencies (new id if resubmitted in this run, tracked id if in flight). Non-trivial = at least one run was checked; distinct = different digest.")
 PROFILE = dict(
     nontrivial_probes=['plan_checks_with_backend_states'],
-    backends=["slurm", "slurm", "sge", "lsf"],
+    backends=["slurm", "slurm", "sge", "lsf", "local"],
     sizes=[2, 3, 4, 4, 5, 6, 8, 10],
     weights=dict(run=5, dry_run=0.5, status=0.5, start=3, finish=3, sched_cancel=1, purge=0.7, acct_flush=0.7,
                  modify_source=0.7, delete_output=0.7, touch_file=0.5, advance=0.5),
